@@ -686,7 +686,16 @@ fn main() {
             }
         } else {
             let mut c = gen_case(&mut r);
-            if unsigned_stream && idx % 20 == 19 {
+            if std::env::var("VERIF_C05_UNSIGNED").map(|v| v == "2").unwrap_or(false) {
+                // experiment: unsigned weights where no part is above the cap (any panic is then
+                // the thread-local underflow, which depends on the schedule)
+                c.unsigned = true;
+                c.csr = false;
+                if c.mi.is_some() {
+                    c.mi = Some(8.0);
+                }
+                c.family = format!("unsigned2_{}", c.family);
+            } else if unsigned_stream && idx % 20 == 19 {
                 // known-finding stream: unsigned weights, a tight cap, an unbalanced input
                 c.unsigned = true;
                 c.csr = false;
@@ -710,6 +719,11 @@ fn main() {
             if o != idx {
                 continue;
             }
+        }
+        let mut c = c;
+        if std::env::var("VERIF_C05_SEQUENTIAL").is_ok() {
+            // replay aid: same input, workers run one after the other
+            c.policy = Policy::Preempt(vec![]);
         }
         let o = run_case(&c);
         late += o.late;
@@ -777,7 +791,7 @@ fn main() {
             None => "None".to_string(),
             Some(x) => format!("(Some {}%N)", x.to_bits()),
         };
-        let tr: Vec<u64> = if matches!(o.res, Guarded::Done(_)) { o.trace.iter().map(enc).collect() } else { vec![] };
+        let tr: Vec<u64> = if matches!(o.res, Guarded::Hang) { vec![] } else { o.trace.iter().map(enc).collect() };
         let coq = format!(
             "mk05 {} {} {} {} {} {} {} {}",
             coq_rows(&c.g),
